@@ -602,14 +602,15 @@ def _check_composite(chk: Check, u: Unit, du: DefUse, ev: Dict[int, str], compos
                     path=None if p is None else g.describe_path([nid] + p, u.loc)[:10])
 
 
-def _pre_before_final_record(chk: Check, u: Unit, du: DefUse, ev: Dict[int, str]) -> None:
+def _pre_before_final_record(chk: Check, u: Unit, du: DefUse, ev: Dict[int, str],
+                             rule: str = "O2") -> None:
     """The state recorded after the loop (last step) is preceded, in the same
     iteration, by the pre-measurement control of that step."""
     g = du.cfg
     loops = [n for n in g.nodes if n.kind == "iter" and "num_steps" in norm(n.ast.iter)
              and "reversed" not in norm(n.ast.iter)]
     if not loops:
-        raise AnalysisError(f"O2: stepping loop of {u.qual} not found")
+        raise AnalysisError(f"{rule}: stepping loop of {u.qual} not found")
     loop = loops[0]
     in_loop = g.reachable([b for b, l in g.succ[loop.id] if l == "it"],
                           edge_ok=lambda a, b, l: True)
@@ -625,17 +626,81 @@ def _pre_before_final_record(chk: Check, u: Unit, du: DefUse, ev: Dict[int, str]
     tests = {n.id for n in g.nodes if n.kind == "test" and isinstance(n.ast, ast.Compare)
              and dotted(n.ast.left) in pre_vars}
     if not finals:
-        chk.add("O2", u, "final state recorded after the loop", False,
+        chk.add(rule, u, "final state recorded after the loop", False,
                 "no state is recorded after the last step")
         return
     starts = [b for b, l in g.succ[loop.id] if l == "it"]
     p = g.find_path(starts, lambda x: x in finals, blocked=lambda x: x in pre or x in tests,
                     edge_ok=lambda a, b, l: l != "loop")
-    chk.add("O2", u, "pre-control of the last step precedes the final record", p is None,
+    chk.add(rule, u, "pre-control of the last step precedes the final record", p is None,
             "" if p is None else
             "the loop can be left and the final state recorded without applying the "
             "pre-measurement control of the last step",
             path=None if p is None else g.describe_path(p, u.loc)[:8])
+    # The loop can also end by running out of steps.  Then the last thing that happened is a
+    # propagation: the state has reached a step whose pre-measurement control was never
+    # applied.  That exit is harmless only if it cannot be taken: the loop variable runs over
+    # range(B) and some iteration-ending `break` is guarded by `<loop var> == B - 1` (the last
+    # iteration always leaves through the break).
+    it = loop.ast.iter
+    always_breaks = False
+    if isinstance(loop.ast.target, ast.Name) and isinstance(it, ast.Call) \
+            and dotted(it.func) == "range" and len(it.args) == 1:
+        var = loop.ast.target.id
+
+        def leaf(x):
+            return Poly.sym(norm(x)) if isinstance(x, (ast.Name, ast.Attribute)) else None
+        bound = eval_form(it.args[0], leaf)
+        for n in g.nodes:
+            if n.id in body and n.kind == "test" and isinstance(n.ast, ast.Compare) \
+                    and len(n.ast.ops) == 1 and isinstance(n.ast.ops[0], (ast.Eq, ast.GtE)):
+                sides = [n.ast.left, n.ast.comparators[0]]
+                other = [s_ for s_ in sides if not (isinstance(s_, ast.Name) and s_.id == var)]
+                if len(other) != 1:
+                    continue
+                f = eval_form(other[0], leaf)
+                leads_to_break = any(g.nodes[b].kind == "stmt" and isinstance(g.nodes[b].ast, ast.Break)
+                                     for (b, l) in g.succ[n.id] if l == "t")
+                if bound is not None and f is not None and leads_to_break \
+                        and (bound - f) == Poly.const(1):
+                    always_breaks = True
+    prop_after_pre = any(k in ("PROP1", "ENV", "PROP2") and n in body for n, k in ev.items())
+    exhaust = [b for b, l in g.succ[loop.id] if l not in ("it",)]
+    p2 = None
+    if not always_breaks and prop_after_pre and exhaust:
+        post_loop_pre = {n for n, k in ev.items() if k == "PRE" and n not in body}
+        # `if <pre control> is not None:` around it also discharges the obligation (no control)
+        post_vars = set()
+        for n in post_loop_pre:
+            for c in g.nodes[n].calls():
+                if call_name(c) == "_apply_system_superoperator" and len(c.args) > 2 \
+                        and isinstance(c.args[2], ast.Name):
+                    post_vars.add(c.args[2].id)
+        post_tests = {n.id for n in g.nodes if n.kind == "test" and n.id not in body
+                      and isinstance(n.ast, ast.Compare) and dotted(n.ast.left) in post_vars}
+        p2 = g.find_path(exhaust, lambda x: x in finals,
+                         blocked=lambda x: x in post_loop_pre or x in post_tests,
+                         edge_ok=lambda a, b, l: l != "loop")
+    chk.add(rule, u, "the loop cannot run out of steps between the last propagation and the final "
+            "record" + (" (last iteration always breaks)" if always_breaks else ""), p2 is None,
+            "" if p2 is None else
+            "when the loop runs out of steps the state has just been propagated to the final "
+            "step, whose pre-measurement control is never applied before the final state is "
+            "recorded (a control at step == num_steps is silently dropped)",
+            path=None if p2 is None else g.describe_path([loop.id] + p2, u.loc)[:8])
+
+
+def final_step_controls(prog: Program, chk: Check, rule: str) -> None:
+    """The pre-measurement control of the last step reaches the final state, in all steppers."""
+    for q in ("system_dynamics:compute_dynamics", "system_dynamics:compute_dynamics_with_field",
+              "gradient:compute_gradient_and_dynamics"):
+        u = prog.unit(q)
+        du = DefUse(u, CFG(u.node, exc_edges=False))
+        chk.saw(u, du.cfg)
+        ev = stepper_events(prog, u, du, [])
+        if q.startswith("gradient"):
+            ev = _forward_only(du.cfg, ev)
+        _pre_before_final_record(chk, u, du, ev, rule)
 
 
 def o2(prog: Program, chk: Check) -> None:
